@@ -176,10 +176,16 @@ class Route(Generic[Interface]):
         match = self.re_pattern.fullmatch(path)
         if match is None:
             return False, {}
-        return True, {
-            name: self.path_convertors[name].to_python(value)
-            for name, value in match.groupdict().items()
-        }
+        try:
+            params = {
+                name: self.path_convertors[name].to_python(value)
+                for name, value in match.groupdict().items()
+            }
+        except ValueError:
+            # Text of the right shape that denotes no value of the type
+            # (e.g. "2021-13-45" for date) is not a match.
+            return False, {}
+        return True, params
 
 
 @mypyc_attr(allow_interpreted_subclasses=True)
